@@ -206,7 +206,10 @@ def desugar_let_chains(body, drops, fn_disp):
         found = None
         for m in re.finditer(r"\b(if|while)\b", masked):
             kw = m.group(1)
-            o, c = _block_after(masked, m.end())
+            try:
+                o, c = _block_after(masked, m.end())
+            except SpecError:
+                continue   # an `if` guard without a block (match-arm guard inside matches!(..))
             cond_m = masked[m.end():o]
             if not re.search(r"\blet\b", cond_m):
                 continue
@@ -342,6 +345,59 @@ def desugar_for_ranges(body, drops, fn_disp):
             var, a, count, b, var, count, body[o + 1:c], var)
         drops.append("%s: `for %s in %s..%s` desugared to an equivalent while loop (rule 3)" % (fn_disp, var, a[:40], b[:40]))
         body = body[:m.start()] + new + body[c + 1:]
+
+
+def desugar_loop_break_values(body, drops, fn_disp):
+    """rule 7: `let X = loop { BODY };` where BODY leaves the loop with `break V;` ->
+    `let X; loop { BODY' }` with every `break V;` of THIS loop (not of nested loops, not inside closures)
+    replaced by `{ X = V; break; }` (Verus: "complex break expressions" unsupported; a deferred
+    initialisation assigned exactly once on every exit is the same value flow)"""
+    while True:
+        masked = rsrc.mask(body)
+        m = re.search(r"\blet\s+([A-Za-z_]\w*)\s*=\s*loop\s*\{", masked)
+        if not m:
+            return body
+        var = m.group(1)
+        o = m.end() - 1
+        c = rsrc.match_close(masked, o)
+        inner, inner_m = body[o + 1:c], masked[o + 1:c]
+        # spans of nested loops / closures: breaks in there belong to them
+        skip = [(a, b) for (_kw, _s, a, b) in rsrc.loops(inner_m)]
+        for cm in re.finditer(r"\|[^|]*\|\s*\{", inner_m):
+            oo = cm.end() - 1
+            skip.append((oo, rsrc.match_close(inner_m, oo)))
+        out, pos, n = [], 0, 0
+        for bm in re.finditer(r"\bbreak\b", inner_m):
+            if any(a < bm.start() < b for a, b in skip):
+                continue
+            k = bm.end()
+            # value expression up to the `;` at depth 0
+            depth, e = 0, k
+            while e < len(inner_m):
+                ch = inner_m[e]
+                if ch in "([{":
+                    depth += 1
+                elif ch in ")]}":
+                    if depth == 0:
+                        break
+                    depth -= 1
+                elif ch in ";," and depth == 0:
+                    break
+                e += 1
+            val = inner[k:e].strip()
+            if not val:
+                raise SpecError("rule 7: plain `break` inside a value loop")
+            has_semi = e < len(inner_m) and inner_m[e] == ";"
+            out.append(inner[pos:bm.start()])
+            out.append("{ %s = %s; break; }" % (var, val))
+            pos = e + 1 if has_semi else e
+            n += 1
+        out.append(inner[pos:])
+        if n == 0:
+            raise SpecError("rule 7: value loop without break")
+        # trailing `;` after the loop's closing brace stays
+        body = body[:m.start()] + "let %s; loop {" % var + "".join(out) + "}" + body[c + 1:]
+        drops.append("%s: `let %s = loop {..break V;..}` desugared to deferred initialisation + plain break (rule 7, %d exits)" % (fn_disp, var, n))
 
 
 def _nest(ops, blk):
@@ -655,6 +711,7 @@ def expand(template_path, tree):
             body = desugar_for_ranges(body, gen.drops, fn_disp)
             body = desugar_ref_patterns(body, gen.drops, fn_disp)
             body = desugar_for_vec_refs(body, gen.drops, fn_disp)
+            body = desugar_loop_break_values(body, gen.drops, fn_disp)
             # rule 6: `_ = E;` (destructuring assignment to the wildcard) -> `let _ = E;`
             nb = re.sub(r"(?m)^(\s*)_\s*=(?![=>])\s*", r"\1let _ = ", body)
             if nb != body:
